@@ -231,8 +231,10 @@ class Model:
             recv.attrs["cached_instructions"] = list(self.ins)
             recv.attrs.setdefault("idx", 0)
             return NotImplemented
-        if isinstance(recv, Obj) and recv.cls is not None and recv.cls.name == "DCode" and name == "get_instructions":
-            return list(self.ins)
+        if isinstance(recv, Obj) and recv.cls is not None and recv.cls.name == "DCode" and name == "get_instructions" and recv.cls.lookup("get_instructions") is not None:
+            # DCode.get_instructions: the cached list if there is one (set_instructions replaces it), else a fresh
+            # disassembly -- which the model answers with its instruction list; the real method is executed for the rest
+            return NotImplemented
         if isinstance(recv, Obj) and recv.name == "payload":
             if name == "get_targets":
                 if recv.cls is not None and recv.cls.name in ("PackedSwitch", "SparseSwitch"):
@@ -323,9 +325,23 @@ class Model:
             raise Raised("KeyError", e, show(k))
         return NotImplemented
 
+    def func_hook(self, it, target, args, kwargs, e, func):
+        if target.qualname == "LinearSweepAlgorithm.get_instructions":
+            return list(self.ins)   # the disassembly of the model method
+        return NotImplemented
+
     def hooks(self, inline):
         return {"compare": self.compare, "method": self.method_hook, "call": self.call_hook, "binop": self.binop,
-                "global": self.global_hook, "subscript": self.subscript, "inline_funcs": inline}
+                "global": self.global_hook, "subscript": self.subscript, "func": self.func_hook, "inline_funcs": inline}
+
+    def new_dcode(self, it, name="dcode"):
+        """a DCode object built by the real constructor (so that every attribute it keeps exists)"""
+        cls = self.dexm.cls("DCode")
+        o = Obj(cls, name)
+        init = cls.lookup("__init__")
+        if init is not None:
+            it.call_function(init, [_Tok("class_manager"), 0, Sym("size"), _Tok("buff")], recv=o)
+        return o
 
     def interp(self, asg, inline):
         return _ModelInterp(self, self.repo, self.folder, asg=dict(asg), hooks=self.hooks(inline), unknown_cond="error")
@@ -441,7 +457,8 @@ def _offset_functions(sink, md):
     def runs(f, args, recv_factory):
         def run(asg):
             it = md.interp(asg, inline)
-            return it.call_function(f, list(args), recv=recv_factory())
+            rf = recv_factory(it) if recv_factory is new_dcode else recv_factory()
+            return it.call_function(f, list(args), recv=rf)
         return explore(run)
 
     def single(res, f, what):
@@ -455,10 +472,8 @@ def _offset_functions(sink, md):
         return first
 
     # ---- DCode.off_to_pos / get_ins_off -------------------------------------------------------------
-    def new_dcode():
-        o = Obj(dcode, "dcode")
-        o.attrs["cached_instructions"] = list(md.ins)
-        return o
+    def new_dcode(it):
+        return md.new_dcode(it)
 
     for name, expect, miss in (("off_to_pos", lambda k: k, -1), ("get_ins_off", lambda k: md.ins[k], None)):
         f = dcode.lookup(name)
@@ -481,6 +496,36 @@ def _offset_functions(sink, md):
             sink.check("offset-functions", "DCode.%s(%s)" % (name, what), ok, f, "DCode.%s(%s) -> %s" % (name, what.split(" (")[0], show(got)[:40]),
                        "DCode.%s returns %s for the %s; the disassembler's instruction offsets are the prefix sums of get_length(), expected %s" % (
                            name, show(got)[:60], what, show(want)[:40]), detail="%s -> %s" % (what, show(want)[:40]))
+    # ---- history: an address lookup, then set_instructions() installs another layout, then lookups again ----------------
+    fset = dcode.lookup("set_instructions")
+    if fset is not None:
+        new_list = [md.ins[2], md.ins[0], md.ins[1]]
+        n_off = [0, md.L[2], (Lin.of(md.L[2]) + Lin.of(md.L[0])).simplify()]
+        for name, expect in (("get_ins_off", lambda k: new_list[k]), ("off_to_pos", lambda k: k)):
+            f = dcode.lookup(name)
+            for k in (1, 2):
+                def run(asg, f=f, k=k):
+                    it = md.interp(asg, inline)
+                    o = md.new_dcode(it)
+                    it.call_function(f, [S[1]], recv=o)          # a lookup on the original layout
+                    it.call_function(fset, [list(new_list)], recv=o)
+                    return it.call_function(f, [n_off[k]], recv=o)
+                what = "offset of instruction %d of the list installed by set_instructions() after an earlier lookup" % k
+                got = _const(single(explore(run), f, what))
+                sink.count("offset_cases")
+                if isinstance(got, Raised):
+                    sink.check("offset-functions", "DCode.%s after set_instructions" % name, False, f, "DCode.%s raises %s after set_instructions" % (name, got.exc),
+                               "DCode.%s raises %s for the %s" % (name, got, what), node=got.node)
+                    continue
+                if isinstance(got, (Sym, Lin)):
+                    raise AnalysisError("DCode.%s: result %s after set_instructions is outside the interpreter's fragment" % (name, show(got)[:100]))
+                want = expect(k)
+                ok = got is want or (not isinstance(want, _Ins) and not isinstance(got, _Ins) and got == want)
+                sink.check("offset-functions", "DCode.%s after set_instructions (%d)" % (name, k), ok, f,
+                           "DCode.%s after set_instructions -> %s instead of %s" % (name, show(got)[:40], show(want)[:40]),
+                           "a lookup, then DCode.set_instructions([ins2, ins0, ins1]), then DCode.%s(%s) returns %s; the disassembler now reports %s there "
+                           "(the answer stems from the layout before set_instructions)" % (name, render(n_off[k], names), show(got)[:40], show(want)[:40]),
+                           detail="after set_instructions the new layout is used")
     # ---- EncodedMethod.get_instructions_idx ------------------------------------------------------------
     em = md.dexm.cls("EncodedMethod")
     f = em.lookup("get_instructions_idx")
@@ -528,7 +573,7 @@ def _offset_functions(sink, md):
         sink.check("offset-functions", "DEXBasicBlock.get_instructions %s" % what, ks == want, f, "get_instructions of %s -> instructions %s" % (what, ks),
                    "DEXBasicBlock.get_instructions returns instructions %s for the %s; with the disassembler's offsets it contains %s" % (ks, what, want),
                    detail="%s -> instructions %s" % (what, want))
-    sink.floor("offset_cases", 19)
+    sink.floor("offset_cases", 19)  # 23 with the set_instructions sequence
 
 
 # =====================================================================================================
